@@ -150,10 +150,8 @@ class DataPath:
             "len": "length",
         }
 
-        if not isinstance(spec, dict):
+        if not isinstance(spec, dict) or not spec:
             raise MalformedDataPathSpec(general_msg)
-        else:
-            spec_key, spec_val = next(iter(spec.items()))  # single-item dict
 
         REPLACE = "path"
         ESC_CODE = rf"\{REPLACE}"
@@ -169,6 +167,8 @@ class DataPath:
                 f"A data path should be specified with exactly one "
                 f"specification key (but found keys: {list(spec.keys())}). {general_msg}"
             )
+
+        spec_key, spec_val = next(iter(spec.items()))  # single-item dict
 
         if not isinstance(spec_key, str):
             raise MalformedDataPathSpec(general_msg)
